@@ -64,6 +64,11 @@ def make_classes(spec: list) -> list:
             ns["__len__"] = lambda self: 0
         elif c.get("falsy") == "bool":
             ns["__bool__"] = lambda self: False
+        if c.get("eq"):
+            # value semantics: all instances of the class compare (and hash) equal - they are
+            # still different instances with channels of their own
+            ns["__eq__"] = lambda self, other: type(other) is type(self)
+            ns["__hash__"] = lambda self: 7
         out.append(type(c["name"], (base,), ns))
     return out
 
@@ -85,11 +90,20 @@ class H:
         self.plan = plan
         self.classes = make_classes(plan["classes"])
         self.inst: dict[str, Any] = {}
-        for i in plan["instances"]:
-            self.inst[i["id"]] = self.classes[i["cls"]]()
-        self.inst_id = {id(o): k for k, o in self.inst.items()}
         self.first: dict[tuple, Any] = {}
         self.n = 0
+        for i in plan["instances"]:
+            if i.get("copy_of") in self.inst:
+                # a shallow copy of an instance whose signals have already been used
+                import copy as _copy
+
+                orig = i["copy_of"]
+                for attr in sorted(declared(plan["classes"], i["cls"])):
+                    self.sig([orig, attr])
+                self.inst[i["id"]] = _copy.copy(self.inst[orig])
+            else:
+                self.inst[i["id"]] = self.classes[i["cls"]]()
+        self.inst_id = {id(o): k for k, o in self.inst.items()}
 
     def sig(self, chan: list) -> Any:
         s = getattr(self.inst[chan[0]], chan[1])
@@ -202,6 +216,18 @@ class H:
                 sim.log("filter_seen", sub=name, n=ev.n, ok=ok)
                 return ok
 
+        if flt is not None and f.get("obj"):
+            # the filter is a callable object, and a falsy one (an empty rule set)
+            inner_flt = flt
+
+            class _Rules:
+                def __len__(self_) -> int:
+                    return 0
+
+                def __call__(self_, ev: Any) -> bool:
+                    return inner_flt(ev)
+
+            flt = _Rules()  # type: ignore[assignment]
         q = t.get("q", 50)
         leave = t.get("leave", {})
         deadline = leave.get("at")
@@ -227,6 +253,8 @@ class H:
             else:
                 cm = stream_events(sigs, flt, max_queue_size=q) if "q" in t else stream_events(sigs, flt)
             async with cm as stream:
+                # the caller re-uses its list of signals while the stream is open
+                sigs.clear()
                 sim.log("sub_enter", sub=name, chans=t["chans"], q=q, filter=f)
                 try:
                     for p in t.get("pulls", ()):
@@ -680,9 +708,17 @@ def gen(rng: random.Random, tier: str, prop: str) -> dict:
         cspec: dict[str, Any] = {"name": f"S{ci}", "base": base, "signals": [{"attr": a, "ev": rng.choice((0, 1, 1))} for a in attrs]}
         if rng.random() < 0.15:
             cspec["falsy"] = rng.choice(("len", "bool"))
+        if rng.random() < 0.12:
+            cspec["eq"] = True
         classes.append(cspec)
     ninst = rng.choice((1, 2, 2, 3))
     instances = [{"id": f"i{k}", "cls": rng.randrange(ncls)} for k in range(ninst)]
+    for k in range(1, ninst):
+        if rng.random() < 0.12:
+            # instance k is a shallow copy of an earlier one (same class)
+            src = rng.randrange(k)
+            instances[k]["cls"] = instances[src]["cls"]
+            instances[k]["copy_of"] = instances[src]["id"]
     chans = []
     for i in instances:
         for attr in sorted(declared(classes, i["cls"])):
@@ -710,6 +746,8 @@ def gen(rng: random.Random, tier: str, prop: str) -> dict:
             t["filter"] = {"mod": mod, "rem": rng.randrange(mod)}
             if rng.random() < 0.12:
                 t["filter"]["boom_at"] = rng.randint(1, 4)
+            if rng.random() < 0.15:
+                t["filter"]["obj"] = "falsy"
         if rng.random() < 0.15:
             t["wait"] = True
             t["method"] = rng.random() < 0.5
